@@ -5,6 +5,10 @@ A program is a list of nodes:
   ("C", dots, name, expr)      constant declaration       `..name = expr`
   ("D", width, expr)           data directive             `#d<width> expr`
   ("O",)                       filler                     `#d8 0`     (= ("D", 8, ("l", 0)) for the model)
+  ("X", expr)                  instruction                `ld expr`    rule `ld {x: u8} => 0x10 @ x` (one match)
+  ("J", expr)                  instruction                `jmp expr`   rules `jmp {a: u8} => 0x20 @ a`, `jmp {a: u16} => 0x21 @ a`
+                                                          (3 bytes while the target is unknown, 2 afterwards: addresses move
+                                                          between the first pass and the final one)
 expr = ("l", int) | ("r", dots, [names]) | ("+"|"-"|"*", a, b)
 """
 import re, os
@@ -30,7 +34,14 @@ def render_node(n):
         return "." * n[1] + n[2] + " = " + render_expr(n[3])
     if n[0] == "D":
         return "#d%d %s" % (n[1], render_expr(n[2]))
+    if n[0] == "X":
+        return "ld " + render_expr(n[1])
+    if n[0] == "J":
+        return "jmp " + render_expr(n[1])
     return "#d8 0"
+
+
+RULEDEF = "#ruledef\n{\n    ld {x: u8} => 0x10 @ x\n    jmp {a: u8} => 0x20 @ a\n    jmp {a: u16} => 0x21 @ a\n}\n"
 
 
 def render(nodes, bank=None):
@@ -38,7 +49,8 @@ def render(nodes, bank=None):
     if bank is not None:
         lines.append("#bankdef b { addr = %s, size = 0x100000, outp = 0 }" % render_expr(bank))
     lines += [render_node(n) for n in nodes]
-    return "\n".join(lines) + "\n"
+    head = RULEDEF if any(n[0] in ("X", "J") for n in nodes) else ""
+    return head + "\n".join(lines) + "\n"
 
 
 def hx(s):
@@ -226,6 +238,8 @@ def denote_program(nodes, bank, names, prepass_only=False):
                 pos += n[1]
             elif n[0] == "O":
                 pos += 8
+            elif n[0] in ("X", "J"):
+                pos += 16          # final sizes: `ld` always, `jmp` in its short form (every address here is < 256)
         data = []
         for idx, n in enumerate(nodes):
             if n[0] == "D":
@@ -236,6 +250,11 @@ def denote_program(nodes, bank, names, prepass_only=False):
                 data.append((w, v % (1 << w)))
             elif n[0] == "O":
                 data.append((8, 0))
+            elif n[0] in ("X", "J"):
+                v = ev(n[1], sc.encl[idx], False)
+                if not (0 <= v < 256):
+                    raise Fail("range")
+                data.append((16, (0x1000 if n[0] == "X" else 0x2000) + v))
         table = {}
         for i, d in enumerate(sc.decl):
             table[sc.full_name(i)] = sym_value(i, False)
@@ -460,9 +479,23 @@ def gen_cond_program(rng, stages=True):
     err = rng.weighted([(None, 14), ("dup", 1), ("skip", 1)])
     nodes = gen_tree(rng, rng.range(3, 10), err=err)
     paths = tree_paths(nodes, rng, extra=1)
+    sc = Scopes(nodes)
+    good = []
+    if not sc.error:
+        for pos in range(len(nodes) + 1):
+            encl = sc.encl[pos - 1] if pos > 0 else []
+            for lvl in range(0, 4):
+                for pth in paths:
+                    if sc.resolve(encl, lvl, pth) is not None:
+                        good.append((pos, lvl, pth))
+    picks = []
     for _ in range(rng.range(1, 3)):
-        pos = rng.below(len(nodes) + 1)
-        nodes = nodes[:pos] + [("D", 8, ("r", rng.weighted([(0, 3), (1, 4), (2, 3), (3, 1)]), rng.choice(paths)))] + nodes[pos:]
+        if good and rng.chance(0.9):
+            picks.append(rng.choice(good))            # resolves in the selected world
+        else:
+            picks.append((rng.below(len(nodes) + 1), rng.weighted([(0, 3), (1, 4), (2, 3), (3, 1)]), rng.choice(paths)))
+    for pos, lvl, pth in sorted(picks, key=lambda c: -c[0]):
+        nodes = nodes[:pos] + [("D", 8, ("r", lvl, pth))] + nodes[pos:]
     t_conds, f_conds = list(COND_TRUE), list(COND_FALSE)
     prelude = [("C", 0, "q1", ("l", 1))]
     if stages and rng.chance(0.6):
@@ -531,3 +564,70 @@ def count_ifs(items):
             if it[2] is not None:
                 n += count_ifs(it[2])
     return n
+
+
+# ----------------------------------------------------------------------------- instructions that name local symbols
+def gen_instr_program(rng):
+    """`start:` / `jmp end` (shrinks after the first pass) / a declaration tree in which constants are literals or take
+    the address of a label (so their first-pass value is a guess), with the same local name under a label parent and
+    under a constant parent / `ld <reference>` instructions at random positions / `end:`"""
+    tree = gen_tree(rng, rng.range(3, 9))
+    sc = Scopes(tree)
+    if sc.error:
+        return None
+    labels = [i for i, d in enumerate(sc.decl) if d["kind"] == "L"]
+
+    def addr_expr():
+        # the address of some label, by its full name; `start` and `end` are always there
+        tgt = rng.choice([["start"], ["end"]] + [sc.full_name(i).split(".") for i in labels])
+        e = ("r", 0, tgt)
+        return ("+", e, ("l", rng.range(1, 3))) if rng.chance(0.3) else e
+
+    nodes = []
+    for n in tree:
+        if n[0] == "C" and rng.chance(0.5):
+            n = ("C", n[1], n[2], addr_expr())
+        nodes.append(n)
+    # a scope opened by a constant right after a scope opened by a label (or the other way round), both with a child of
+    # the same name, one a literal and one an address: at dot-level 0 or nested one level down
+    if rng.chance(0.7):
+        name = rng.choice(LOCALS)
+        p1, p2 = "m%d" % rng.below(3), "n%d" % rng.below(3)
+        kinds = rng.choice([("L", "C"), ("C", "L"), ("C", "C"), ("L", "L")])
+        lits = rng.choice([(True, False), (False, True), (False, False)])
+        lvl = 0 if rng.chance(0.7) else 1
+        motif = []
+        if lvl == 1:
+            motif.append(("L", 0, "w%d" % rng.below(3)))
+        for pn, kind, lit in ((p1, kinds[0], lits[0]), (p2, kinds[1], lits[1])):
+            motif.append(("L", lvl, pn) if kind == "L" else ("C", lvl, pn, ("l", 0) if rng.chance(0.5) else addr_expr()))
+            if rng.chance(0.4):
+                motif.append(("O",))
+            motif.append(("C", lvl + 1, name, ("l", rng.range(80, 120)) if lit else addr_expr()))
+        motif.append(("X", ("r", lvl + 1, [name])))
+        if rng.chance(0.5):
+            motif.append(("X", ("r", lvl, [p1, name])))
+        at = rng.below(len(nodes) + 1)
+        # keep the tree's own nesting intact: the motif starts at dot-level 0
+        while at < len(nodes) and nodes[at][0] in ("L", "C") and nodes[at][1] > 0:
+            at += 1
+        nodes = nodes[:at] + motif + nodes[at:]
+    nodes = [("L", 0, "start"), ("J", ("r", 0, ["end"]))] + nodes + [("L", 0, "end")]
+    sc = Scopes(nodes)
+    if sc.error:
+        return None
+    paths = tree_paths(nodes, rng, extra=1)
+    cands = []
+    for pos in range(2, len(nodes)):
+        encl = sc.encl[pos - 1]
+        for lvl in range(0, 4):
+            for pth in paths:
+                if sc.resolve(encl, lvl, pth) is not None:
+                    cands.append((pos, lvl, pth))
+    picks = sorted(rng.shuffle(cands)[:rng.range(2, 5)], key=lambda c: -c[0])
+    for pos, lvl, pth in picks:
+        nodes = nodes[:pos] + [("X", ("r", lvl, pth))] + nodes[pos:]
+    if rng.chance(0.3):
+        at = rng.range(2, len(nodes) - 1)
+        nodes = nodes[:at] + [("J", ("r", 0, ["end"]))] + nodes[at:]
+    return nodes
